@@ -407,6 +407,7 @@ def run(ctx):
     rng = ctx.rng('c07')
     jobs = build_jobs(ctx, rng, ctx.n(12, 300), ctx.n(2, 20), 40, ctx.n(2, 99), 1.0, ops_budget=ctx.n(120, 900))
     results = L.run_jobs('job_c07', jobs, timeout=NAV_TIMEOUT, module='props.c07')
+    results = L.confirm_timeouts('job_c07', jobs, results, NAV_TIMEOUT, module='props.c07')
     collect(res, results, jobs)
     res.facet('oracle_navigation')['cases'] = res.stats.get('actions', 0)
     if ctx.model_ok:
